@@ -44,6 +44,7 @@ def required_cells(tier):
             req["kind:%s/E=1e-%d" % (k, e)] = 3 if q else 60
     for f in FRAMES:
         req["frame:" + f] = 50
+    req["coordinates:Fraction-with-a-float-perturbation"] = 50
     req["general-form:perturbed-coefficient-was-zero"] = 30
     req["general-form:perturbed-coefficient-was-non-zero"] = 30
     req["history:nonpower"] = 50
@@ -290,6 +291,14 @@ def judge(case):
         if realised == 0 or abs(realised - delta) > abs(delta) * 0.05:
             _diag["trivial_perturbations"] += 1
             return core.not_admitted("trivial-perturbation")
+        if kind in ("P", "VEC") and case.get("which", 0) % 5 == 2 and early is None:
+            # the catalogue coordinates as exact rationals (eighths), the perturbed coordinate as the float it is
+            from fractions import Fraction as _Fr
+            mu.cell("coordinates:Fraction-with-a-float-perturbation")
+            fr = lambda row: [_Fr(x) for x in row]
+            vals = [fr(v) for v in vals]
+            valsB = [[(_Fr(x) if (i, j) != (which, ax) else x) for j, x in enumerate(row)] for i, row in enumerate(valsB)]
+            case["_frac"] = True
         A = early if early is not None else _build(G, kind, vals)
         if early is not None:
             mu.cell("history:object-built-before-the-tolerance-change")
@@ -317,8 +326,8 @@ def judge(case):
         if kind in ("P", "VEC"):
             mu.cell("clause:4E-unequal")
             valsC = [list(v) for v in vals]
-            valsC[which][ax] = vals[which][ax] + 4 * E * case["sign"]
-            if abs((valsC[which][ax] - vals[which][ax]) - 4 * E * case["sign"]) < 0.3 * E:
+            valsC[which][ax] = float(vals[which][ax]) + 4 * E * case["sign"]
+            if abs((valsC[which][ax] - float(vals[which][ax])) - 4 * E * case["sign"]) < 0.3 * E:
                 Cc = _build(G, kind, valsC)
                 if A == Cc or Cc == A:
                     mu.fail("beyond-eps:equal:%s" % kind, "at eps=1e-%d two %ss 4*eps apart compare equal" % (case["E"], kind))
